@@ -8,6 +8,15 @@
 //!    AllRecursively => every universe path strictly below d matches; Specific{dirs, files} => every matching path p
 //!    below d is announced: a direct child by its name in `files`, a deeper one by its first component below d in `dirs`.
 //! C31: the same two checks for `FilesetExpression::to_matcher()` of the expression built from E.
+//! C31, parse level (docs/filesets.md): fileset TEXT over the pattern kinds {"p", bare p, cwd:, file:, cwd-file:, glob:,
+//! cwd-glob:, prefix-glob:, cwd-prefix-glob:, root:, root-file:, root-glob:, root-prefix-glob:} x patterns with and without
+//! * and ?, combined with | & ~ (infix and prefix), none(), all(), with and without parentheses, is parsed by the real
+//! `fileset::parse` / `parse_maybe_bare` (cwd = workspace root and cwd = sub-directory a), turned into a matcher, and
+//! `matches` is compared on every universe path with a denotation written from the documentation: a string without kind is
+//! a cwd-relative prefix-glob; path kinds are literal (file = exact, cwd:/root: = the path or anything under it); glob =
+//! component-wise * ? match of the whole path; prefix-glob = glob or anything under a match; cwd kinds are relative to the
+//! working directory, root kinds to the workspace root; ~x binds tighter than & and infix ~ (left to right), those tighter
+//! than |.
 use crate::util::{catch, hit, none, Rng};
 use jj_lib::fileset::{FilePattern, FilesetExpression};
 use jj_lib::matchers::{DifferenceMatcher, EverythingMatcher, FilesMatcher, IntersectionMatcher, Matcher, NothingMatcher, PrefixMatcher, UnionMatcher, Visit, VisitDirs, VisitFiles};
@@ -215,12 +224,149 @@ fn random_expr(rng: &mut Rng, depth: u32, comps_: &[&str], globs: bool) -> E {
     }
 }
 
-pub fn run(pid: &str, _func: &str, replay: Option<Value>, seed: u64) -> Value {
+// ================================================================ C31, parse level
+#[derive(Clone, Debug)]
+enum T { None, All, Atom(String, String), Not(Box<T>), Bin(char, Box<T>, Box<T>) }
+fn t_json(t: &T) -> Value {
+    match t { T::None => json!("none()"), T::All => json!("all()"), T::Atom(k, p) => json!({"atom": [k, p]}), T::Not(x) => json!({"not": t_json(x)}), T::Bin(op, l, r) => json!({"op": op.to_string(), "l": t_json(l), "r": t_json(r)}) }
+}
+fn t_from(v: &Value) -> T {
+    if v == "none()" { return T::None; }
+    if v == "all()" { return T::All; }
+    if let Some(a) = v.get("atom") { return T::Atom(a[0].as_str().unwrap_or("").into(), a[1].as_str().unwrap_or("").into()); }
+    if let Some(x) = v.get("not") { return T::Not(Box::new(t_from(x))); }
+    T::Bin(v["op"].as_str().and_then(|s| s.chars().next()).unwrap_or('|'), Box::new(t_from(&v["l"])), Box::new(t_from(&v["r"])))
+}
+/// kinds: "" = quoted string, "ident" = unquoted identifier, "bare" = whole text is the string (parse_maybe_bare),
+/// "bare:<kind>" = `kind:unquoted text` (parse_maybe_bare), otherwise `kind:"pattern"`
+fn atom_text(kind: &str, pat: &str) -> String {
+    match kind { "" => format!("\"{pat}\""), "ident" | "bare" => pat.to_string(), k if k.starts_with("bare:") => format!("{}:{pat}", &k[5..]), k => format!("{k}:\"{pat}\"") }
+}
+fn t_text(t: &T, top: bool) -> String {
+    match t {
+        T::None => "none()".into(), T::All => "all()".into(),
+        T::Atom(k, p) => atom_text(k, p),
+        T::Not(x) => format!("~{}", t_text(x, false)),
+        T::Bin(op, l, r) => { let s = format!("{} {op} {}", t_text(l, false), t_text(r, false)); if top { s } else { format!("({s})") } }
+    }
+}
+/// (relative to root?, glob?, prefix?) of a pattern kind, from docs/filesets.md
+fn kind_sem(kind: &str) -> (bool, bool, bool) {
+    match kind.strip_prefix("bare:").unwrap_or(kind) {
+        "" | "ident" | "bare" | "prefix-glob" | "cwd-prefix-glob" => (false, true, true),
+        "cwd" => (false, false, true),
+        "file" | "cwd-file" => (false, false, false),
+        "glob" | "cwd-glob" => (false, true, false),
+        "root" => (true, false, true),
+        "root-file" => (true, false, false),
+        "root-glob" => (true, true, false),
+        _ /* root-prefix-glob */ => (true, true, true),
+    }
+}
+fn t_den(t: &T, cwd: &str, p: &str) -> bool {
+    match t {
+        T::None => false, T::All => true,
+        T::Not(x) => !t_den(x, cwd, p),
+        T::Bin('|', l, r) => t_den(l, cwd, p) || t_den(r, cwd, p),
+        T::Bin('&', l, r) => t_den(l, cwd, p) && t_den(r, cwd, p),
+        T::Bin(_, l, r) => t_den(l, cwd, p) && !t_den(r, cwd, p),
+        T::Atom(kind, pat) => {
+            let (root, glob, prefix) = kind_sem(kind);
+            let mut pc: Vec<&str> = if root { vec![] } else { comps(cwd) };
+            for c in comps(pat) { match c { "." => {}, ".." => { pc.pop(); }, c => pc.push(c) } }
+            let path = comps(p);
+            (if prefix { path.len() >= pc.len() } else { path.len() == pc.len() })
+                && (0..pc.len()).all(|i| if glob { wild(&pc[i].chars().collect::<Vec<_>>(), &path[i].chars().collect::<Vec<_>>(), false) } else { pc[i] == path[i] })
+        }
+    }
+}
+fn check_text(text: &str, t: &T, cwd: &str, bare: bool, u: &Universe, rpaths: &[RepoPathBuf]) -> Option<Value> {
+    use jj_lib::fileset::{FilesetAliasesMap, FilesetDiagnostics, FilesetParseContext};
+    let base = std::path::PathBuf::from("/ws");
+    let conv = jj_lib::repo_path::RepoPathUiConverter::Fs { cwd: if cwd.is_empty() { base.clone() } else { base.join(cwd) }, base };
+    let input = json!({"kind": "fileset_text", "text": text, "cwd": cwd, "bare": bare, "tree": t_json(t)});
+    let f = if bare { "fileset::parse_maybe_bare" } else { "fileset::parse" };
+    let txt = text.to_string();
+    let m = catch(std::panic::AssertUnwindSafe(|| {
+        let aliases = FilesetAliasesMap::new();
+        let ctx = FilesetParseContext { aliases_map: &aliases, path_converter: &conv };
+        let mut diag = FilesetDiagnostics::new();
+        let e = if bare { jj_lib::fileset::parse_maybe_bare(&mut diag, &txt, &ctx) } else { jj_lib::fileset::parse(&mut diag, &txt, &ctx) };
+        e.map(|e| e.to_matcher()).map_err(|e| format!("{e}"))
+    }));
+    let m = match m { Ok(Ok(m)) => m, Ok(Err(e)) => return Some(hit(input, json!({"observed": format!("parse error: {e}"), "required": "the text is a fileset expression of the documented language"}), f)), Err(p) => return Some(hit(input, json!({"observed": format!("panic: {p}"), "required": "no panic"}), f)) };
+    for (i, p) in rpaths.iter().enumerate() {
+        let want = t_den(t, cwd, &u.paths[i]);
+        let got = match catch(std::panic::AssertUnwindSafe(|| m.matches(p))) { Ok(g) => g, Err(e) => return Some(hit(input, json!({"path": u.paths[i], "observed": format!("panic: {e}"), "required": "no panic"}), f)) };
+        if got != want { return Some(hit(input, json!({"path": u.paths[i], "observed": format!("{text:?} evaluated in cwd {:?}: matches({:?}) == {got}", if cwd.is_empty() { "<workspace root>" } else { cwd }, u.paths[i]), "required": format!("{want} (docs/filesets.md)")}), f)); }
+    }
+    None
+}
+const KINDS: [&str; 13] = ["", "ident", "cwd", "file", "cwd-file", "glob", "cwd-glob", "prefix-glob", "cwd-prefix-glob", "root", "root-file", "root-glob", "root-prefix-glob"];
+const PATS: [&str; 8] = ["a", "a/b", "*b", "a/*", "?", ".", "b/a*", "../b"];
+const BARE: [(&str, &str); 9] = [("bare", "a b"), ("bare", "* b"), ("bare", "a/? b"), ("bare", "a b/*"), ("bare:file", "a b"), ("bare:glob", "* b"), ("bare:root-glob", "a/* b"), ("bare:cwd", "a b/a"), ("bare:root-prefix-glob", "?/a b")];
+
+fn run_parse_level(seed: u64) -> Option<Value> {
+    let u = universe(&["a", "b", "ab", "a b"], 3);
+    let up: Vec<RepoPathBuf> = u.paths.iter().map(|p| rp(p)).collect();
+    let mut atoms: Vec<T> = vec![T::None, T::All];
+    for k in KINDS { for p in PATS { if !(p == "../b" && k.starts_with("root")) { atoms.push(T::Atom(k.into(), p.to_string())); } } }
+    for cwd in ["", "a"] {
+        // every atom alone (also through parse_maybe_bare), negated, and the whole-text bare strings
+        for a in &atoms {
+            if cwd.is_empty() { if let T::Atom(_, p) = a { if p.starts_with("..") { continue; } } }
+            for bare in [false, true] { if let Some(h) = check_text(&t_text(a, true), a, cwd, bare, &u, &up) { return Some(h); } }
+            let n = T::Not(Box::new(a.clone()));
+            if let Some(h) = check_text(&t_text(&n, true), &n, cwd, false, &u, &up) { return Some(h); }
+        }
+        for (k, p) in BARE { let a = T::Atom(k.into(), p.into()); if let Some(h) = check_text(&t_text(&a, true), &a, cwd, true, &u, &up) { return Some(h); } }
+        // every binary combination of a thinner atom set
+        let thin: Vec<&T> = atoms.iter().enumerate().filter(|(i, a)| i % 3 != 2 && !matches!(a, T::Atom(_, p) if p.starts_with(".."))).map(|(_, a)| a).collect();
+        for a in &thin { for b in &thin { for op in ['|', '&', '~'] {
+            let t = T::Bin(op, Box::new((*a).clone()), Box::new((*b).clone()));
+            if let Some(h) = check_text(&t_text(&t, true), &t, cwd, false, &u, &up) { return Some(h); }
+        } } }
+    }
+    // random: depth 2-3 with parentheses, and flat operator chains that rely on the documented binding power
+    let mut rng = Rng::new(seed ^ 0xC31F);
+    let pick = |rng: &mut Rng, cwd: &str| -> T { loop { let a = &atoms[rng.below(atoms.len() as u64) as usize]; if cwd.is_empty() && matches!(a, T::Atom(_, p) if p.starts_with("..")) { continue; } return a.clone(); } };
+    fn rand_t(rng: &mut Rng, depth: u32, cwd: &str, pick: &dyn Fn(&mut Rng, &str) -> T) -> T {
+        if depth == 0 || rng.below(4) == 0 { return pick(rng, cwd); }
+        match rng.below(4) { 0 => T::Not(Box::new(rand_t(rng, depth - 1, cwd, pick))), k => T::Bin(['|', '&', '~'][k as usize - 1], Box::new(rand_t(rng, depth - 1, cwd, pick)), Box::new(rand_t(rng, depth - 1, cwd, pick))) }
+    }
+    for _ in 0..4000 {
+        let cwd = if rng.below(2) == 0 { "" } else { "a" };
+        let depth = 2 + rng.below(2) as u32;
+        let t = rand_t(&mut rng, depth, cwd, &pick);
+        let bare = rng.below(2) == 0;
+        if let Some(h) = check_text(&t_text(&t, true), &t, cwd, bare, &u, &up) { return Some(h); }
+        // flat chain: [~]x op [~]y op [~]z ..; oracle: | splits first, then & and ~ fold left to right, prefix ~ binds tightest
+        let n = 2 + rng.below(3) as usize;
+        let items: Vec<T> = (0..n).map(|_| { let a = pick(&mut rng, cwd); if rng.below(4) == 0 { T::Not(Box::new(a)) } else { a } }).collect();
+        let ops: Vec<char> = (1..n).map(|_| ['|', '&', '~'][rng.below(3) as usize]).collect();
+        let mut text = t_text(&items[0], false);
+        for i in 1..n { text.push_str(&format!(" {} {}", ops[i - 1], t_text(&items[i], false))); }
+        let mut groups: Vec<T> = vec![items[0].clone()];
+        for i in 1..n { if ops[i - 1] == '|' { groups.push(items[i].clone()); } else { let l = groups.pop().unwrap(); groups.push(T::Bin(ops[i - 1], Box::new(l), Box::new(items[i].clone()))); } }
+        let mut t = groups[0].clone();
+        for g in &groups[1..] { t = T::Bin('|', Box::new(t), Box::new(g.clone())); }
+        if let Some(h) = check_text(&text, &t, cwd, false, &u, &up) { return Some(h); }
+    }
+    None
+}
+fn replay_parse_level(inp: &Value) -> Value {
+    let u = universe(&["a", "b", "ab", "a b"], 3);
+    let up: Vec<RepoPathBuf> = u.paths.iter().map(|p| rp(p)).collect();
+    check_text(inp["text"].as_str().unwrap_or(""), &t_from(&inp["tree"]), inp["cwd"].as_str().unwrap_or(""), inp["bare"].as_bool().unwrap_or(false), &u, &up).unwrap_or_else(|| none("replayed input satisfies the executable contract on the current build"))
+}
+
+pub fn run(pid: &str, func: &str, replay: Option<Value>, seed: u64) -> Value {
     let c31 = pid == "C31";
     let big = universe(&["a", "b", "ab", "A"], 3);
     let big_p: Vec<RepoPathBuf> = big.paths.iter().map(|p| rp(p)).collect();
     let big_d: Vec<RepoPathBuf> = big.dirs.iter().map(|p| rp(p)).collect();
     if let Some(inp) = &replay {
+        if inp["kind"] == "fileset_text" { return replay_parse_level(inp); }
         let e = from_json(&inp["expr"]);
         let c31 = inp["kind"] == "fileset";
         return check_expr(&e, c31, &big, &big_p, &big_d).unwrap_or_else(|| none("replayed input satisfies the executable contract on the current build"));
@@ -272,14 +418,17 @@ pub fn run(pid: &str, _func: &str, replay: Option<Value>, seed: u64) -> Value {
             } }
         } } }
     }
+    let parse_first = c31 && (func.contains("parse") || func.contains("resolve") || func.contains("from_str_kind"));
+    if parse_first { if let Some(h) = run_parse_level(seed) { return h; } }
     let mut rng = Rng::new(seed ^ if c31 { 0xC31 } else { 0xC30 });
     for _ in 0..if c31 { 6000 } else { 8000 } {
         let depth = 2 + rng.below(3) as u32;
         let e = random_expr(&mut rng, depth, &["a", "b", "ab", "A"], c31);
         if let Some(h) = check_expr(&e, c31, &big, &big_p, &big_d) { return h; }
     }
+    if c31 && !parse_first { if let Some(h) = run_parse_level(seed) { return h; } }
     if c31 {
-        json!({"found": false, "note": "scope exhausted: FilesetExpression::to_matcher for every expression of depth <= 1 and a third of depth 2 over 11 leaves (none, all, file and prefix sets over a/b paths), all 3-ary and 7986 5-ary unions of leaf&all operands, plus 6000 random expressions of depth <= 4 (file/prefix paths, simple globs * ? incl. case-insensitive, n-ary/empty/nested unions) checked on all paths of depth <= 3 over components {a,b,ab,A}: matches == denotation, visit sound", "scope": "small"})
+        json!({"found": false, "note": "scope exhausted: FilesetExpression::to_matcher for every expression of depth <= 1 and a third of depth 2 over 11 leaves (none, all, file and prefix sets over a/b paths), all 3-ary and 7986 5-ary unions of leaf&all operands, plus 6000 random expressions of depth <= 4 (file/prefix paths, simple globs * ? incl. case-insensitive, n-ary/empty/nested unions) checked on all paths of depth <= 3 over components {a,b,ab,A}: matches == denotation, visit sound; parse level: fileset text over 13 pattern kinds x 8 patterns (+9 bare strings with spaces), each alone / negated / through parse and parse_maybe_bare, all binary combinations of two thirds of them, 8000 random nested and unparenthesised texts, cwd = workspace root and cwd = a, on paths over {a,b,ab,'a b'}: matches == documented denotation", "scope": "small"})
     } else {
         json!({"found": false, "note": "scope exhausted: every Union/Intersection/Difference tree of depth <= 2 over 11 leaves (Nothing, Everything, 6 FilesMatcher incl. a file that is an ancestor directory of another file and sets sharing a file in a leaf directory, 3 PrefixMatcher), all 7 directories and 14 paths of depth <= 3 over {a,b}; 8000 random trees of depth <= 4 on paths over {a,b,ab,A}: matches == denotation, visit sound for it", "scope": "small"})
     }
